@@ -619,6 +619,11 @@ def invocation_table(st):
         "e2freefrag -c": ("e2freefrag", ["-c", "64", "t.img"]),
         "e2label": ("e2label", ["t.img"]),
         "e2undo -n": ("e2undo", ["-n", "t.undo", "t.img"]),
+        # the same on an undo file whose recording run ended abnormally (header not marked finished;
+        # a real replay would then mark the filesystem as needing a check) and with -f / -v
+        "e2undo -n unfinished": ("e2undo", ["-n", "t.undo", "t.img"]),
+        "e2undo -n -f unfinished": ("e2undo", ["-n", "-f", "t.undo", "t.img"]),
+        "e2undo -n -v": ("e2undo", ["-n", "-v", "t.undo", "t.img"]),
         "mke2fs -n": ("mke2fs", ["-n", "-F", "t.img"]),
     }
     if st.get("jnl"):
@@ -672,12 +677,15 @@ def run_pair(root, env, st, inv, do_strace, pdir):
         table.update(invocation_table(st))
         tool, args = table[inv]
         # setup steps (not judged, not traced): produce the auxiliary file the invocation reads
-        if inv == "e2undo -n":
-            r = run.run([b.tool("tune2fs"), "-z", "t.undo", "-L", "c13-undo", "t.img"], env=env,
+        if inv.startswith("e2undo -n"):
+            env_u = dict(env)
+            if "unfinished" in inv:
+                env_u["UNDO_IO_SIMULATE_UNFINISHED"] = "1"
+            r = run.run([b.tool("tune2fs"), "-z", "t.undo", "-L", "c13-undo", "t.img"], env=env_u,
                         cwd=pdir, timeout=WATCHDOG)
             res["setup"] = "tune2fs -z rc=%s" % r.rc
             if not os.path.exists(os.path.join(pdir, "t.undo")):
-                r = run.run([b.tool("e2fsck"), "-fy", "-z", "t.undo", "t.img"], env=env, cwd=pdir,
+                r = run.run([b.tool("e2fsck"), "-fy", "-z", "t.undo", "t.img"], env=env_u, cwd=pdir,
                             timeout=WATCHDOG)
                 res["setup"] += "; e2fsck -fy -z rc=%s" % r.rc
             res["setup_ok"] = os.path.exists(os.path.join(pdir, "t.undo"))
